@@ -7,8 +7,20 @@
    and continues from the snapshot named by a Crash entry. *)
 EXTENDS MCWal, Json
 
-VARIABLE hist
-mbtvars == <<vars, hist>>
+CONSTANT Profiles   \* the generator profiles a behaviour may be drawn from: subset of {"free", "driver"}
+
+VARIABLES hist,
+          prof,    \* the generator's profile of this behaviour: "free" | "driver"
+          alt      \* ghosts: walFilesByHeight / walHeightRefs as the ALTERNATIVE bookkeeping rules would
+                   \* have them after the same calls (they never influence the behaviour)
+mbtvars == <<vars, hist, prof, alt>>
+
+(* Alternative reference-count rules followed as ghosts.  A cleanup whose set of obsolete logs differs
+   under one of them is a step at which the real code's bookkeeping is observable: the behaviour is
+   `sensitive` to that rule (recorded at the Rotate step; the check requires such behaviours and the
+   "driver" profile produces them). *)
+AltRules == {"height", "skipfirst", "entry"}
+EmptyAlt == [rule \in AltRules |-> [hf |-> EmptyHf, refs |-> EmptyRefs]]
 
 R(S) == {RandomElement(S)}
 Coin(n) == RandomElement(1..n) = 1
@@ -20,12 +32,33 @@ UpHs == IF {h \in Hs : h > pruned /\ h <= pruned + 2} = {} THEN Hs
         ELSE {h \in Hs : h > pruned /\ h <= pruned + 2}
 LiveHs == IF {h \in Hs : h >= pruned} = {} THEN Hs ELSE {h \in Hs : h >= pruned}
 
+(* profile "driver": the calls the consensus driver makes.  At height Cur = pruned + 1 it logs the
+   messages of Cur and, early, of Cur + 1 (sometimes Cur + 2); a commit is DeleteWALEntries(Cur) in a
+   batch of its own or behind the last messages, then Flush; the process stops (Close or crash) and
+   restarts at any moment, most interestingly in the middle of a height: the entries of that height
+   are then spread over two logs, those of the next height start in the second one, and the later
+   prunes (every CleanupInterval-th runs the cleanup) must release exactly the right logs. *)
+Cur == pruned + 1
+InHs(S) == S \cap Hs
+DriverIdle ==
+  \/ \E h \in InHs({Cur}) : AppendE(h)
+  \/ \E h \in InHs({Cur}) : AppendE(h)
+  \/ \E h \in InHs({IF Coin(6) THEN Cur + 2 ELSE Cur + 1}) : AppendE(h)
+  \/ pending # <<>> /\ Flush(IF Faults /\ Coin(12) THEN {"werr"} ELSE {"ok"})
+  \/ pending # <<>> /\ Flush({"ok"})
+  \/ /\ live[IF Cur \in Hs THEN Cur ELSE MaxH] # <<>> \/ nid > MaxEntries
+     /\ ~HasP(pending) /\ \E h \in InHs({Cur}) : PruneUpTo(h)
+  \/ pending = <<>> /\ live # EmptyLive /\ Coin(3) /\ Close({"ok"})
+  \/ pending = <<>> /\ live # EmptyLive /\ Coin(3) /\ \E img \in R(CrashImages) : Crash(img)
+  \/ (Cur > MaxH \/ nid > MaxEntries) /\ Flush({"ok"})   \* nothing left to log: (possibly) no-ops
+
 SimNext ==
   IF mode = "down" THEN Open
   ELSE IF pc # "idle"
   THEN \/ SyncOk \/ Abort \/ WmTmp \/ WmRename \/ WmSyncDir \/ Rotate \/ RemoveFile \/ RemoveDone
        \/ Coin(5) /\ SyncErr
-       \/ Coin(4) /\ \E img \in R(CrashImages) : Crash(img)
+       \/ Coin(IF prof = "driver" THEN 10 ELSE 4) /\ \E img \in R(CrashImages) : Crash(img)
+  ELSE IF prof = "driver" THEN DriverIdle
   ELSE \/ \E h \in R(LiveHs) : AppendE(h)
        \/ \E h \in R(LiveHs) : AppendE(h)
        \/ \E h \in R(UpHs) : PruneUpTo(h)
@@ -36,21 +69,45 @@ SimNext ==
 
 (* vin: what a reader must see once the batch in flight is durable (the other admissible reading of
    a crash image taken while a Flush is in progress) *)
-Step == SimNext /\ hist' = Append(hist,
+AltAfter(rule) ==
+  IF act'.name = "SyncOk"
+  THEN LET st == ApplyRecsR(rule, [live |-> live, hf |-> alt[rule].hf, refs |-> alt[rule].refs,
+                                   pruned |-> pruned], cur, pending)
+       IN [hf |-> st.hf, refs |-> st.refs]
+  ELSE IF act'.name = "Open"
+  THEN LET r == RecoverR(rule, [fex |-> fex, fbs |-> fbs, tail |-> tail, wm |-> wm])
+       IN [hf |-> r.st.hf, refs |-> r.st.refs]
+  ELSE IF act'.name = "Crash" THEN [hf |-> EmptyHf, refs |-> EmptyRefs]
+  ELSE alt[rule]
+(* files: the log files of the directory after the step; spans: live heights with entries in more than
+   one log; early / leak (Rotate only): the alternative rules under which this cleanup would remove
+   a log the code keeps / keep a log the code removes *)
+Step == /\ SimNext
+        /\ alt' = [rule \in AltRules |-> AltAfter(rule)]
+        /\ UNCHANGED prof
+        /\ hist' = Append(hist,
           [a |-> act', res |-> res', live |-> live', pc |-> pc', mode |-> mode',
            pend |-> Len(pending'), pruned |-> pruned',
-           vin |-> IF inflight' # <<>> THEN View(Append(flushed', inflight')) ELSE live'])
+           vin |-> IF inflight' # <<>> THEN View(Append(flushed', inflight')) ELSE live',
+           files |-> fex', nextf |-> nextf',
+           spans |-> Cardinality({h \in Hs : Cardinality(hf'[h]) > 1}),
+           early |-> IF act'.name = "Rotate"
+                     THEN {rule \in AltRules : Obsolete(alt[rule].refs) \ Obsolete(refs) # {}} ELSE {},
+           leak |-> IF act'.name = "Rotate"
+                    THEN {rule \in AltRules : Obsolete(refs) \ Obsolete(alt[rule].refs) # {}} ELSE {},
+           prof |-> prof])
 
 Emit ==
   /\ PrintT(ToJson(hist))
   /\ fex' = {} /\ fbs' = [f \in Fs |-> <<>>] /\ tail' = NoTail /\ wm' = 0 /\ wmNew' = -1
   /\ wmTmp' = FALSE /\ gone' = {}
-  /\ mode' = "up" /\ pending' = <<>> /\ live' = EmptyLive /\ hf' = EmptyHf /\ pruned' = 0
+  /\ mode' = "up" /\ pending' = <<>> /\ live' = EmptyLive /\ hf' = EmptyHf /\ refs' = EmptyRefs
+  /\ pruned' = 0 /\ alt' = EmptyAlt /\ prof' = RandomElement(Profiles)
   /\ since' = 0 /\ cur' = 0 /\ nextf' = 1 /\ pc' = "idle" /\ todo' = <<>> /\ closing' = FALSE
   /\ flushed' = <<>> /\ inflight' = <<>> /\ maybe' = <<>> /\ openErr' = FALSE
   /\ nid' = 1 /\ steps' = 0 /\ act' = [name |-> "Init"] /\ res' = "ok" /\ hist' = <<>>
 
-MBTInit == Init /\ hist = <<>>
+MBTInit == Init /\ hist = <<>> /\ prof = RandomElement(Profiles) /\ alt = EmptyAlt
 (* a behaviour ends after MaxSteps client-level steps, once the call in progress has returned *)
 MBTNext == IF steps >= MaxSteps /\ pc = "idle" THEN Emit ELSE Step
 =============================================================================
